@@ -28,6 +28,8 @@ DEFS = [
     "struct in { uint32 q; }; struct main { in first; uint8 b : 3; uint8 d : 5; in many[3]; uint64 arr[2]; wchar w[2]; };",
     "enum E : uint8 { A = 1, B }; struct in { E e; uint8 z[2]; }; struct main { E es[2]; in n; uint8 k; uint8 v[k]; };",
     "struct in { uint8 x; }; union un { uint32 a; uint8 b[4]; in s; }; struct main { un u; in t; uint16 arr[2]; };",
+    "struct main { uint8 a; struct { uint8 x; uint16 y[2]; }; struct { uint8 p; } named; uint8 z[2]; };",      # an anonymous nested structure (forwarded members)
+    "struct main { uint8 a; uint8 b; };",                                                                      # scalars only: extended by add_field during the history
 ]
 
 
@@ -105,6 +107,16 @@ def check(run: Run) -> None:
             return out
 
         sigs = [class_signature(cs) for cs in objs]
+        exts = [[] for _ in objs]     # add_field extensions applied to main of each cstruct object: (field name, type expression)
+
+        def fresh_ref(ci, cs, T):
+            ref = cstruct(endian=cs.endian)
+            ref.load(texts[ci], compiled=False, align=T.__align__)
+            for fname, (base_, cnt_) in exts[ci]:
+                t_ = ref.resolve(base_)
+                ref.resolve("main").add_field(fname, t_ if cnt_ is None else t_[cnt_])
+            return ref
+
         live = []     # (cs index, instance, shadow snapshot)
         log = []
         problem = None
@@ -119,8 +131,7 @@ def check(run: Run) -> None:
                     v = T()
                     log.append(f"cs{ci}: v{len(live)} = main()")
                     # a fresh default construction equals the default of a brand new cstruct object
-                    ref = cstruct(endian=cs.endian)
-                    ref.load(texts[ci], compiled=False, align=T.__align__)
+                    ref = fresh_ref(ci, cs, T)
                     want = snapshot(ref.resolve("main")(), ref.resolve("main"))
                     if snapshot(v, T) != want:
                         problem = {"what": "default construction depends on earlier operations", "observed": repr(snapshot(v, T))[:300], "expected": repr(want)[:300]}
@@ -129,8 +140,7 @@ def check(run: Run) -> None:
                     data = F.random_data(rng, 64) + bytes(300)
                     v = T(data)
                     log.append(f"cs{ci}: v{len(live)} = main({data.hex()[:24]}...)")
-                    ref = cstruct(endian=cs.endian)
-                    ref.load(texts[ci], compiled=False, align=T.__align__)
+                    ref = fresh_ref(ci, cs, T)
                     want = snapshot(ref.resolve("main")(data), ref.resolve("main"))
                     # enum-typed fields must be members of THIS cstruct object's enum
                     names_now = repr(v)
@@ -152,9 +162,18 @@ def check(run: Run) -> None:
                     j = rng.randrange(len(live))
                     live[j][1].dumps()
                     log.append(f"v{j}.dumps()")
-                elif k < 0.93:
+                elif k < 0.9:
                     cs.endian = rng.choice("<>")
                     log.append(f"cs{ci}.endian = {cs.endian}")
+                elif k < 0.95 and "union" not in texts[ci]:
+                    # the type is extended after instances exist: later default constructions must not share their new mutable members
+                    fname, texpr = f"x{step}", rng.choice([("uint16", 3), ("uint8", 2), ("uint32", None)] + ([("in", None), ("in", 2)] if "struct in " in texts[ci] else []))
+                    t_ = cs.resolve(texpr[0])
+                    T.add_field(fname, t_ if texpr[1] is None else t_[texpr[1]])
+                    exts[ci].append((fname, texpr))
+                    live = [x for x in live if x[0] != ci]          # instances of the old shape are retired
+                    sigs[ci] = class_signature(cs)
+                    log.append(f"cs{ci}: main.add_field({fname}, {texpr})")
                 else:
                     cs.load(f"struct extra{step} {{ uint8 q; uint16 r[2]; }};")
                     cs.add_type(f"alias{step}", "uint32")
@@ -183,6 +202,11 @@ def check(run: Run) -> None:
                 sig = "C14/default-shared" if ("main()" in " ".join(log) and "changed by" in problem["what"] or "default construction" in problem["what"]) else "C14/" + problem["what"].split(" ")[0]
                 run.report(sig, {"definition": text, "ops": [{"op": "history", "history": log[-12:], **problem}]})
                 break
+
+    for prob in F.default_sharing_problems():
+        failures += 1
+        n_ops += 1
+        run.report("C14/default-shared", {"definition": "fixed default-construction histories (vf/props/_family.py)", "ops": [{"op": "history", **prob}]})
 
     F.obligation_fallback(run, ok, bool(failures))
     cov = run.coverage
